@@ -49,6 +49,9 @@ class MonBytesIO(io.BytesIO):
 _installed = False
 
 
+_ORIG = (index_mod.BytesIO, simple_mod.io)
+
+
 def install_monitors():
     global _installed
     if _installed:
@@ -57,6 +60,13 @@ def install_monitors():
     index_mod.BytesIO = MonBytesIO
     shim = types.SimpleNamespace(BytesIO=MonBytesIO, StringIO=io.StringIO)
     simple_mod.io = shim
+
+
+def remove_monitors():
+    """the tracemalloc runs measure the library as it is (no Python-level BytesIO subclass in the way)"""
+    global _installed
+    _installed = False
+    index_mod.BytesIO, simple_mod.io = _ORIG
 
 
 def buffer_set(width, lengths):
@@ -94,12 +104,12 @@ class C13(Check):
         "(A/B index) every sequence of length 1..L over {A,n} x width {1,3,8} x {LF,CRLF} x final newline x every buffer in "
         "{1,2,3,5,7,w-1,w,w+1,len-1,len,len+1,1e6}: identical index+assembly for all buffers, seq_buffer high-water <= buffer+line; "
         "(A/B stream) every 1-2 row scaffold over the C03 row scope x width x every buffer in the set: identical bytes, every BytesIO, "
-        "chunk and read <= buffer; (C) sequence/fragment(+/-)/gap 400 buffers long, buffers 4096 and 65536: tracemalloc peak <= 8*buffer+64KiB. "
+        "chunk and read <= buffer; (C) sequence/fragment(+/-)/gap 400 buffers long, buffers 4096 and 65536: tracemalloc peak <= 8*buffer+256KiB after an untraced warm-up. "
         "non-trivial = case in which the buffer is smaller than the sequence/fragment/gap (so a flush or chunk split happens)"
     )
     assumptions = [
         "BytesIO objects created by tola.fasta.index / tola.fasta.simple are the only per-residue storage (confirmed by the tracemalloc runs)",
-        "memory bound for long runs is stated as 8*buffer+64KiB (Python object overhead, transient copies)",
+        "memory bound for long runs is stated as 8*buffer+256KiB (Python object overhead, transient copies)",
     ]
     shard_timeout = {"quick": 300, "thorough": 3600}
 
@@ -129,7 +139,7 @@ class C13(Check):
         # second record wider and longer than the first: per-record state (line width, flush rhythm) must be reset
         w2 = 8 if w != 8 else 3
         data, exp = fm.make_fasta([("r1", seq, w), ("r2", seq[::-1] * 3, w2)], eolb, fnl)
-        runs = [m.end() - m.start() for m in __import__("re").finditer(rb"[A]+|[n]+", seq)]
+        runs = [m.end() - m.start() for m in __import__("re").finditer(rb"[A]+|[nr]+", seq)]
         bufs = buffer_set(w, [len(seq), *runs])
         ref = None
         for buf in bufs:
@@ -244,8 +254,11 @@ class C13(Check):
         ctx.cur = case
         ctx.evaluations += 1
         ctx.nontrivial += 1
+        remove_monitors()
+        # one-time allocations (regex compilation, lazy imports) are taken out of the measurement by a small
+        # untraced warm-up of the same code paths
         n = 400 * buf
-        limit = 8 * buf + 64 * 1024
+        limit = 8 * buf + 256 * 1024  # generous: a whole-sequence read would be 400 x buf
         base = "/dev/shm" if Path("/dev/shm").is_dir() else None
         d = Path(tempfile.mkdtemp(prefix="verif_c13_", dir=base))
         try:
@@ -265,6 +278,18 @@ class C13(Check):
                     fh.write(line * (n // 60))
                 fh.write(b">chr2\nACGT\n")
             total = (n // 60) * 60
+            import gc
+
+            warm = d / "warm.fa"
+            warm.write_bytes(b">w\n" + b"ACGTNNACGT\n" * 40 + b"AC\n>w2\nAC\n")
+            for _ in range(2):
+                widx, wasm = index_fasta_file(warm, 7)
+                wfi = FastaIndex(warm, 7)
+                wfi.index = widx
+                FastaStream(NullSink(), wfi).write_assembly(wasm)
+                FastaStream(NullSink(), wfi).write_scaffold(wasm.scaffolds[0].reverse())
+                wfi.fasta_fileandle.close()
+            gc.collect()
             if what == "index-2widths":
                 tracemalloc.start()
                 idx, asm = index_fasta_file(path, buf)
@@ -318,6 +343,11 @@ class C13(Check):
             for k in range(1, ln + 1):
                 for t in itertools.product(b"An", repeat=k):
                     self.check_index(bytes(t), w, eol, fnl, ctx)
+            # a non-N ambiguity code next to N runs (shorter strings, three symbols)
+            for k in range(2, min(ln, 6) + 1):
+                for t in itertools.product(b"Anr", repeat=k):
+                    if b"r"[0] in t:
+                        self.check_index(bytes(t), w, eol, fnl, ctx)
             ctx.sample({"index": "AAnnA", "width": w, "eol": eol, "buffers": buffer_set(w, [5, 2, 2, 1])})
         elif kind == "stream":
             self.check_stream_shard(shard[1], shard[2], shard[3], ctx)
